@@ -130,6 +130,19 @@ def run(rep, tier, seed, b):
 
 
 def known(f):
+    if f['id'] == 'F-C07-int-digits':
+        s_ = sf()
+        t = dict(s_.get_preset_constraints('default'))
+        t[eval(f['witness']['key_expr'], {'__builtins__': {}})] = f['witness']['value']
+        try:
+            s_.set_semantic_constraints(t)
+            big = [x for x in s_.get_semantic_robust_alphabet() if len(x) > 4000]
+            r = call(s_.decoder, big[0]) if big else {'ok': None}
+        except Exception as e:   # noqa
+            r = {'ok': 'rejected: ' + type(e).__name__}
+        finally:
+            s_.set_semantic_constraints()
+        return ('a symbol of the alphabet cannot be decoded: ' + str(r)) if 'err' in r else None
     if f['id'] != 'F-C12-alphabet-alias':
         return None
     im = H.impl_run(f['witness']['ops'])
